@@ -106,15 +106,49 @@ const (
 	xImgAlt      // thorough: <img alt=Q> without src: a non-replaced box holding the alt text
 	xBeforeBlock // thorough: ::before{display:block}
 	xBeforeCell  // thorough: ::before{display:table-cell}
+	// the other properties that rewrite display or take the box out of the flow
+	xFootnote       // float:footnote (footnote-display: block, the initial value)
+	xFootnoteInline // float:footnote; footnote-display:inline
+	xRunning        // position:running(h)
+	// replaced content that loads, with content of its own, and content that does not load
+	xObjPng     // the element is <object data=raster image served by the harness> with ::before and ::after
+	xSvg        // the element is an inline <svg>: its children are SVG elements
+	xObjBroken  // the element is <object data=URL that fails>: the children are the fallback and DO generate boxes
+	xImgPseudo  // <img> child (raster image) with ::before and ::after content
+	xImgLI      // <img> child with display:list-item (a marker is asked for)
+	xEmbedChild // <embed> child (raster image)
+	xImgBroken  // <img> child whose image fails, with alt text: a non-replaced box holding the alt text
 	nExtraKinds
 )
 
 var extraName = [nExtraKinds]string{
 	"none", "lsp-inside", "ws-only", "no-text", "spaced", "float", "abspos", "fixed", "before", "after",
 	"img-child", "replaced", "colspan", "rowspan2", "rowspan0", "img-alt", "before-block", "before-cell",
+	"footnote", "footnote-inline", "running", "object-png", "svg", "object-broken", "img-pseudo", "img-li",
+	"embed-child", "img-broken",
 }
 
 func (k extraKind) targeted() bool { return k >= xFloat }
+
+// replacedElem: the element itself is a replaced element whose image loads.
+func (k extraKind) replacedElem() bool { return k == xReplaced || k == xObjPng || k == xSvg }
+
+// footnote: the element is taken out of the tree into the footnote area.
+func (k extraKind) footnote() bool { return k == xFootnote || k == xFootnoteInline }
+
+// voidChild: an <img> / <embed> element is inserted as the first child of the target.
+func (k extraKind) voidChild() bool {
+	switch k {
+	case xImgChild, xImgAlt, xImgPseudo, xImgLI, xEmbedChild, xImgBroken:
+		return true
+	}
+	return false
+}
+
+// voidChildLoads: the inserted element is replaced by its image.
+func (k extraKind) voidChildLoads() bool {
+	return k == xImgChild || k == xImgPseudo || k == xImgLI || k == xEmbedChild
+}
 
 type extra struct {
 	kind   extraKind
@@ -144,6 +178,7 @@ type node struct {
 	kidsAlive bool // children, text and pseudo-elements of this element generate boxes
 	replaced  bool
 	effParent int // nearest ancestor that generates a box (display:contents skipped)
+	inRunning bool // the element or an ancestor is a running element: table rules 1.1/1.2 are deferred
 }
 
 type docCase struct {
@@ -223,6 +258,10 @@ func (dc *docCase) render() string {
 		fmt.Fprintf(&sb, `#e%d::before{content:"B";display:table-cell}`, dc.x.target)
 	case xAfter:
 		fmt.Fprintf(&sb, `#e%d::after{content:"F"}`, dc.x.target)
+	case xObjPng:
+		fmt.Fprintf(&sb, `#e%d::before{content:"B"}#e%d::after{content:"F"}`, dc.x.target, dc.x.target)
+	case xImgPseudo:
+		sb.WriteString(`#i::before{content:"B"}#i::after{content:"F"}`)
 	}
 	sb.WriteString(`</style><body`)
 	if dc.x.kind == xLspInside {
@@ -234,17 +273,30 @@ func (dc *docCase) render() string {
 		nd := &dc.nodes[i]
 		for k := 0; k <= len(nd.kids); k++ {
 			sb.WriteString(nd.segs[k])
-			if k == 0 && nd.x == xImgChild {
-				fmt.Fprintf(&sb, `<img id=i src="%s">`, objectData)
-			}
-			if k == 0 && nd.x == xImgAlt {
-				sb.WriteString(`<img id=i alt=Q>`)
+			if k == 0 {
+				switch nd.x {
+				case xImgChild:
+					fmt.Fprintf(&sb, `<img id=i src="%s">`, objectData)
+				case xImgAlt:
+					sb.WriteString(`<img id=i alt=Q>`)
+				case xImgPseudo:
+					fmt.Fprintf(&sb, `<img id=i src="%s">`, pngURL)
+				case xImgLI:
+					fmt.Fprintf(&sb, `<img id=i src="%s" style="display:list-item">`, pngURL)
+				case xEmbedChild:
+					fmt.Fprintf(&sb, `<embed id=i src="%s">`, pngURL)
+				case xImgBroken:
+					fmt.Fprintf(&sb, `<img id=i src="%s" alt=Q>`, missingURL)
+				}
 			}
 			if k < len(nd.kids) {
 				c := &dc.nodes[nd.kids[k]]
 				tag := fmt.Sprintf("e%d", c.id)
-				if c.x == xReplaced {
+				switch c.x {
+				case xReplaced, xObjPng, xObjBroken:
 					tag = "object"
+				case xSvg:
+					tag = "svg"
 				}
 				fmt.Fprintf(&sb, `<%s id=e%d style="display:%s`, tag, c.id, c.d)
 				switch c.x {
@@ -254,6 +306,12 @@ func (dc *docCase) render() string {
 					sb.WriteString(";position:absolute")
 				case xFixed:
 					sb.WriteString(";position:fixed")
+				case xFootnote:
+					sb.WriteString(";float:footnote")
+				case xFootnoteInline:
+					sb.WriteString(";float:footnote;footnote-display:inline")
+				case xRunning:
+					sb.WriteString(";position:running(h)")
 				}
 				sb.WriteString(`"`)
 				switch c.x {
@@ -265,6 +323,12 @@ func (dc *docCase) render() string {
 					sb.WriteString(" rowspan=0")
 				case xReplaced:
 					fmt.Fprintf(&sb, ` data="%s"`, objectData)
+				case xObjPng:
+					fmt.Fprintf(&sb, ` data="%s"`, pngURL)
+				case xObjBroken:
+					fmt.Fprintf(&sb, ` data="%s"`, missingURL)
+				case xSvg:
+					sb.WriteString(` width=4 height=4`)
 				}
 				sb.WriteString(">")
 				rec(c.id)
@@ -296,13 +360,18 @@ func (dc *docCase) computeRef() {
 		if spec == dContents && !contentsSupported {
 			spec = dInline // unknown value: the declaration is dropped
 		}
-		nd.replaced = nd.x == xReplaced
+		nd.replaced = nd.x.replacedElem()
 		if nd.replaced && spec == dContents {
 			spec = dNone // CSS Display 3 §2.5: display:contents on a replaced element computes to none
 		}
 		nd.cd = spec
 		switch {
 		case spec == dNone || spec == dContents:
+		case nd.x == xFootnote:
+			// GCPM §2.4: the box of a footnote element is generated according to footnote-display
+			nd.cd = dBlock
+		case nd.x == xFootnoteInline:
+			nd.cd = dInline
 		case nd.x == xAbs || nd.x == xFixed || nd.x == xFloat:
 			nd.cd = blockify(spec)
 		case pp.cd.flexContainer() || pp.cd.gridContainer():
@@ -315,6 +384,7 @@ func (dc *docCase) computeRef() {
 			nd.cd = dInline
 		}
 		nd.alive, nd.kidsAlive, nd.deadWhy = false, false, ""
+		nd.inRunning = p.inRunning || (nd.x == xRunning && spec != dNone)
 		switch {
 		case !p.kidsAlive:
 			// the parent's content generates nothing
@@ -332,11 +402,12 @@ func (dc *docCase) computeRef() {
 			// no box of its own; the children live on as children of the parent's box
 			nd.deadWhy = "contents"
 			nd.kidsAlive = true
-		case pp.cd == dColGroup && nd.cd != dColumn:
+		case pp.cd == dColGroup && nd.cd != dColumn && !pp.inRunning:
 			nd.deadWhy = "colgroup-child" // CSS 2.1 §17.2.1 rule 1.2
 		default:
 			nd.alive = true
-			nd.kidsAlive = !nd.replaced && nd.cd != dColumn
+			// (inside a running element the table rules are applied when its copy reaches a margin box)
+			nd.kidsAlive = !nd.replaced && (nd.cd != dColumn || nd.inRunning)
 		}
 		for _, k := range nd.kids {
 			rec(k)
@@ -358,7 +429,7 @@ func (dc *docCase) textAlive(i int) bool {
 		host = nd.effParent
 	}
 	// text directly inside a column group is not a table-column box: rule 1.2
-	return dc.nodes[host].cd != dColGroup
+	return dc.nodes[host].cd != dColGroup || dc.nodes[host].inRunning
 }
 
 // ---- feature tags ----------------------------------------------------------------------------
@@ -388,6 +459,21 @@ func (dc *docCase) relTags(i int, set map[string]bool) {
 	}
 	if nd.x != xNone {
 		set[extraName[nd.x]] = true
+	}
+	if nd.x.footnote() || nd.x == xRunning {
+		set[extraName[nd.x]+"-"+nd.d.String()] = true
+	}
+	if nd.x == xRunning {
+		switch {
+		case pp.cd.flexContainer():
+			set["running-flex-item"] = true
+		case pp.cd.gridContainer():
+			set["running-grid-item"] = true
+		case nd.cd.tablePart():
+			set["running-table-part"] = true
+		case nd.cd == dInline:
+			set["running-inline-box"] = true
+		}
 	}
 	if nd.x == xFloat || nd.x == xAbs || nd.x == xFixed {
 		// CSS 2.1 §9.7: display of an out-of-flow box is blockified
